@@ -526,7 +526,7 @@ func wildcardPairs(rec *vr.Rec, rounds int) {
 }
 
 func TestRun(t *testing.T) {
-	rec := vr.New("C10", "per transport (udp, dtls-PSK, tcp, tls over loopback): 4..8 well-behaved sequential clients (each request carries client id + sequence, echoed) concurrent with 2..6 adversarial peers following PRNG programs (random bytes, truncated valid messages, oversize messages, unsolicited ACK/RST, responses with unknown tokens, stray block-wise fragments, DTLS/TLS-looking garbage records, connect-and-stall, oversize stream headers, abrupt close mid-message, signalling frames); unicast discovery with 0..3 responders answering from their own sockets plus a foreign-token response and a late response; stall probes on tcp/tls: 1..3 peers connected and silent (nothing / partial TLS record / partial frame) while a new client must be served. Distinct = distinct (transport, clients, adversaries, seed) tuples.")
+	rec := vr.New("C10", "per transport (udp, dtls-PSK, tcp, tls over loopback): 4..8 well-behaved sequential clients (each request carries client id + sequence, echoed) concurrent with 2..6 adversarial peers following PRNG programs (random bytes, truncated valid messages, oversize messages, unsolicited ACK/RST, responses with unknown tokens, stray block-wise fragments, DTLS/TLS-looking garbage records, connect-and-stall, oversize stream headers, abrupt close mid-message, signalling frames); unicast discovery with 0..3 responders answering from their own sockets plus a foreign-token response and a late response; stall probes on tcp/tls: 1..3 peers connected and silent (nothing / partial TLS record / partial frame) while a new client must be served; keep-alive isolation on all four transports: a server with keep-alive, one silent peer and 2..4 live idle peers. Distinct = distinct (transport, clients, adversaries, seed) tuples.")
 	defer rec.Flush(true)
 	seed := vr.Seed()
 	rnd := rand.New(rand.NewSource(seed))
@@ -555,6 +555,17 @@ func TestRun(t *testing.T) {
 	wildcardPairs(rec, vr.Scale(6, 100))
 	for _, kind := range []string{"tcp", "tls"} {
 		stallProbe(rec, kind, vr.Scale(4, 40), seed)
+	}
+	{
+		var kwg sync.WaitGroup
+		for _, kind := range netenv.Kinds {
+			kwg.Add(1)
+			go func(kind string) {
+				defer kwg.Done()
+				keepAliveIsolation(rec, kind, vr.Scale(1, 12))
+			}(kind)
+		}
+		kwg.Wait()
 	}
 	rec.Assume("safety verdicts only: throughput is reported, not judged; the liveness probe is bounded progress (a new client is served within 15 s after the adversaries stopped)")
 	rec.Assume("multicast is not routable in this sandbox: discovery is exercised with unicast targets and responders answering from other sockets")
